@@ -885,9 +885,13 @@ def real_url(host, pwd):
             del g.script[:]
             g.gh.Client._get_installation_token.cache_clear()
     if host == 'github':
-        import bert_e.git_host.github as gh
-        me = SimpleNamespace(client=SimpleNamespace(login='robot', password=pwd), owner='o', slug='r')
-        return gh.Repository.git_url.fget(me)
+        # a REAL client in password mode (whatever Repository.git_url reads from it is there)
+        g = _setup_gh()
+        so = io.StringIO()
+        with contextlib.redirect_stdout(so), contextlib.redirect_stderr(so):
+            client = g.gh.Client('robot', pwd, 'robot@example.com', base_url='https://api.github.com')
+        me = SimpleNamespace(client=client, owner='o', slug='r')
+        return g.gh.Repository.git_url.fget(me)
     import bert_e.git_host.bitbucket as bb
     me = SimpleNamespace(client=SimpleNamespace(auth=SimpleNamespace(username='robot', password=pwd)),
                          owner='o', slug='r')
